@@ -18,6 +18,10 @@ def run(ctx):
     import numdifftools as nd
     lean_obligations(ctx, MODULE, THEOREMS)
     rng = ctx.rng
+    # the Richardson error formula the theorems richErrGo_ge_diff / richErr_dominates_geometric / richErrMain_nonneg are about,
+    # against Richardson._estimate_error (Float model on the captured arguments)
+    from harness.props.C07 import err_correspondence
+    err_correspondence(ctx, ctx.budget(80, 800))
     # the Float correspondence of the selection / tail stages (bit-exact) is shared with C08: run a reduced version here
     # record consistency for the multivariate classes: shapes, non-negativity, final_step within the generated steps
     eng = ctx.engine('record')
